@@ -147,6 +147,7 @@ class Sub:
     judge: Callable[[Any], Verdict]
     strategy: Optional[Callable[[str], Any]] = None  # tier -> hypothesis strategy of cases
     enum: Optional[Callable[[str, int, int], Iterable]] = None  # (tier, shard, nshards) -> cases
+    runner: Optional[Callable] = None  # (tier, shard, nshards, seed, deadline, absorb) external campaign (atheris)
     quick: int = 1000
     thorough: int = 20000
     shards_quick: int = 16
@@ -215,7 +216,6 @@ def _absorb(stats: Stats, sub: Sub, case, v: Verdict) -> None:
 
 def _run_shard(args) -> Stats:
     prop, subname, shard, nshards, ncases, seed, tier, deadline = args
-    sys.setrecursionlimit(max(sys.getrecursionlimit(), 3000))
     capture()
     mod = load_check(prop)
     sub = next(s for s in mod.SUBS if s.name == subname)
@@ -233,6 +233,12 @@ def _run_shard(args) -> Stats:
             return
         _absorb(stats, sub, case, v)
 
+    if sub.runner is not None:
+        extra = sub.runner(tier, shard, nshards, derive_seed(seed, prop, subname, shard), deadline, one)
+        stats.evaluations += int((extra or {}).get("executions", 0))
+        for lab, n in ((extra or {}).get("labels") or {}).items():
+            stats.labels[f"{sub.name}:{lab}"] += n
+        return stats
     if sub.enum is not None:
         for case in sub.enum(tier, shard, nshards):
             one(case)
@@ -399,7 +405,7 @@ def run_check(prop: str, tier: str, seed: int) -> int:
         if n <= 0:
             continue
         nshards = sub.shards_quick if tier == "quick" else sub.shards_thorough
-        if sub.enum is None:
+        if sub.enum is None and sub.runner is None:
             nshards = max(1, min(nshards, n // 20 or 1))
             per = -(-n // nshards)
         else:
